@@ -10,7 +10,7 @@ from harness.xbuild import uS
 
 ID = "C09"
 REQUIRED_THEOREMS = ["comparison_roundtrip", "condition_roundtrip", "linear_adjustment_roundtrip", "mapM_roundtrip",
-                     "term_roundtrip", "polynomial_roundtrip"]
+                     "term_roundtrip", "polynomial_roundtrip", "mapM_all", "splinepoint_roundtrip", "spline_roundtrip"]
 RULE = ("requests `cyclexml <prefix> <nsmap> <root> <tree>` (definitions loaded from independently written XML, with units, "
         "descriptions incl. empty ones, time types, every optional attribute at non-default values) and `cycleobj <ldef>` "
         "(definitions assembled from objects): write, load, write, load, write on both sides; the by-name serialisation of "
